@@ -1,5 +1,5 @@
-//@unit store_cow
-//@properties C07
+//@unit store_delnode
+//@properties C06
 //@source store src/graph/store.rs
 //@source types src/graph/types.rs
 //@rules D2 R2 R20
@@ -60,7 +60,17 @@ impl GraphCatalog { #[verifier::external_body] pub fn on_label_removed(&mut self
 #[verifier::external_body] pub struct TenantManager { t: u8 }
 pub type Entry = (NodeId, EdgeId);
 #[verifier::external_body] pub struct FrozenAdjacencyStore { f: u8 }
-impl FrozenAdjacencyStore { #[verifier::external_body] pub fn neighbors_collected(&self, node_idx: usize) -> Vec<Entry> { unimplemented!() } }
+impl FrozenAdjacencyStore {
+    /// the frozen tier as unit store_adj proves it: per node a sequence of entries, handed out in order
+    pub uninterp spec fn nbrs(&self, i: int) -> Seq<Entry>;
+    #[verifier::external_body] pub fn neighbors_collected(&self, node_idx: usize) -> (r: Vec<Entry>) ensures r@ == self.nbrs(node_idx as int) { unimplemented!() }
+}
+pub open spec fn ids_of(es: Seq<Entry>) -> Seq<EdgeId> { es.map_values(|e: Entry| e.1) }
+/// `entries.iter().map(|&(_, eid)| eid).collect()` (A-STD; wrapper body is the original chain): the edge ids, in order
+#[verifier::external_body]
+pub fn entry_ids(entries: &Vec<Entry>) -> (r: Vec<EdgeId>)
+    ensures r@ == ids_of(entries@)
+{ entries.iter().map(|&(_, eid)| eid).collect() }
 #[verifier::external_body]
 pub proof fn axiom_key_models()
     ensures vstd::std_specs::hash::obeys_key_model::<Label>(), vstd::std_specs::hash::obeys_key_model::<NodeId>()
@@ -69,7 +79,7 @@ pub proof fn axiom_key_models()
 /// the buffer is emptied, its edge ids are appended
 #[verifier::external_body]
 pub fn extend_with_taken_ids(ids: &mut Vec<EdgeId>, buffer: &mut Vec<Entry>)
-    ensures final(buffer)@.len() == 0
+    ensures final(buffer)@.len() == 0, final(ids)@ == old(ids)@ + ids_of(old(buffer)@)
 { ids.extend(std::mem::take(buffer).into_iter().map(|(_, eid)| eid)); }
 /// `a.iter().chain(b.iter())` materialised (A-STD): a's elements then b's
 #[verifier::external_body]
@@ -145,10 +155,20 @@ impl GraphStore {
         ensures r matches Some(n) ==> (id.0 as int) < self.nodes@.len() && read(self.nodes@[id.0 as int]@, self.current_version) == Some(*n)
     { unimplemented!() }
     #[verifier::external_body] pub fn handle_index_event(&self, event: IndexEvent, tm: Option<std::sync::Arc<TenantManager>>) { unimplemented!() }
-    /// delete_edge (unit store_adj): does not touch the version chains (D4, assumed frame)
+    /// "delete_edge has been called for this edge id" -- ghost bookkeeping of the calls delete_node makes
+    pub uninterp spec fn asked_to_delete(&self, e: EdgeId) -> bool;
+    /// delete_edge (unit store_adj; assumed here): records the request; does not touch the version chains or the frozen tier,
+    /// keeps the number of buffers and only ever shortens a buffer
     #[verifier::external_body]
     pub fn delete_edge(&mut self, id: EdgeId) -> (r: GraphResult<u8>)
-        ensures final(self).nodes@ == old(self).nodes@ && final(self).current_version == old(self).current_version
+        ensures
+            final(self).nodes@ == old(self).nodes@ && final(self).current_version == old(self).current_version,
+            final(self).asked_to_delete(id), forall|e: EdgeId| old(self).asked_to_delete(e) ==> #[trigger] final(self).asked_to_delete(e),
+            final(self).frozen_outgoing == old(self).frozen_outgoing && final(self).frozen_incoming == old(self).frozen_incoming,
+            final(self).free_node_ids@ == old(self).free_node_ids@,
+            final(self).outgoing@.len() == old(self).outgoing@.len() && final(self).incoming@.len() == old(self).incoming@.len(),
+            forall|i: int| 0 <= i < old(self).outgoing@.len() ==> (#[trigger] final(self).outgoing@[i])@.len() <= old(self).outgoing@[i]@.len(),
+            forall|i: int| 0 <= i < old(self).incoming@.len() ==> (#[trigger] final(self).incoming@[i])@.len() <= old(self).incoming@[i]@.len(),
     { unimplemented!() }
     #[verifier::external_body] pub fn update_hierarchies_for_property(&self, id: NodeId, k: &str, v: &PropertyValue) { unimplemented!() }
     #[verifier::external_body] fn apply_property_set(&self, id: NodeId, labels: &LabelSet, k: &str, old: Option<&PropertyValue>, v: &PropertyValue) { unimplemented!() }
@@ -159,76 +179,53 @@ impl GraphStore {
 
 //@fn GraphStore::delete_node ret=r
 //@requires
-        old(self).stamped(),
         // every node slot has its adjacency buffers (create_node* resize outgoing/incoming together with nodes; A-PROJ)
         old(self).outgoing@.len() >= old(self).nodes@.len() && old(self).incoming@.len() >= old(self).nodes@.len(),
 //@ensures
-        final(self).nodes@.len() == old(self).nodes@.len() && final(self).current_version == old(self).current_version,   //#frame
-        forall|k: int| 0 <= k < old(self).nodes@.len() && k != id.0 as int ==> #[trigger] final(self).nodes@[k]@ == old(self).nodes@[k]@,   //#other_nodes_untouched
-        r is Err ==> final(self).nodes@ == old(self).nodes@,                                          //#refused_changes_no_version
-        r is Ok ==> read(final(self).nodes@[id.0 as int]@, old(self).current_version) is None,        //#deleted_node_is_not_readable
-        r is Ok ==> forall|v: u64| v < old(self).current_version ==>
-            #[trigger] read(final(self).nodes@[id.0 as int]@, v) == read(old(self).nodes@[id.0 as int]@, v),   //#reads_below_current_version_unchanged
-        r is Ok ==> (id.0 as int) < old(self).nodes@.len() && old(self).nodes@[id.0 as int]@.len() > 0
-            && final(self).nodes@[id.0 as int]@ == old(self).nodes@[id.0 as int]@.drop_last(),             //#pops_exactly_the_newest_version
+        r is Ok ==> forall|k: int| 0 <= k < old(self).frozen_outgoing.nbrs(id.0 as int).len() ==> final(self).asked_to_delete((#[trigger] old(self).frozen_outgoing.nbrs(id.0 as int)[k]).1),      //#every_frozen_outgoing_edge_is_deleted
+        r is Ok ==> forall|k: int| 0 <= k < old(self).outgoing@[id.0 as int]@.len() ==> final(self).asked_to_delete((#[trigger] old(self).outgoing@[id.0 as int]@[k]).1),      //#every_buffered_outgoing_edge_is_deleted
+        r is Ok ==> forall|k: int| 0 <= k < old(self).frozen_incoming.nbrs(id.0 as int).len() ==> final(self).asked_to_delete((#[trigger] old(self).frozen_incoming.nbrs(id.0 as int)[k]).1),      //#every_frozen_incoming_edge_is_deleted
+        r is Ok ==> forall|k: int| 0 <= k < old(self).incoming@[id.0 as int]@.len() ==> final(self).asked_to_delete((#[trigger] old(self).incoming@[id.0 as int]@[k]).1),      //#every_buffered_incoming_edge_is_deleted
+        r is Ok ==> final(self).outgoing@[id.0 as int]@.len() == 0 && final(self).incoming@[id.0 as int]@.len() == 0,      //#its_write_buffers_are_emptied
+        r is Ok ==> final(self).free_node_ids@ == old(self).free_node_ids@.push(id.0),      //#its_id_goes_on_the_free_list
+        r is Err ==> final(self).outgoing@ == old(self).outgoing@ && final(self).incoming@ == old(self).incoming@ && final(self).free_node_ids@ == old(self).free_node_ids@,      //#refused_changes_nothing
 //@loop 1 iter=it1
-            invariant self.nodes@ == old(self).nodes@, self.current_version == old(self).current_version,
+            invariant self.nodes@ == old(self).nodes@,
                 self.outgoing@ == old(self).outgoing@ && self.incoming@ == old(self).incoming@,
+                self.frozen_outgoing == old(self).frozen_outgoing && self.frozen_incoming == old(self).frozen_incoming,
+                self.free_node_ids@ == old(self).free_node_ids@.push(id.0),
                 (id.0 as int) < self.nodes@.len() && self.nodes@[id.0 as int]@.len() > 0, idx == id.0 as int,
 //@loop 2 iter=it2
-            invariant self.nodes@ == n2, self.current_version == old(self).current_version,
+            invariant
+                idx == id.0 as int, idx < self.outgoing@.len() && idx < self.incoming@.len(),
+                self.outgoing@[idx as int]@.len() == 0 && self.incoming@[idx as int]@.len() == 0,
+                self.free_node_ids@ == old(self).free_node_ids@.push(id.0),
+                all_edges__@ == outgoing_edges@ + incoming_edges@,
+                forall|k: int| 0 <= k < it2.index() ==> self.asked_to_delete(#[trigger] all_edges__@[k]),      //#asked_for_the_ids_so_far
 //@before "let mut outgoing_edges: Vec<EdgeId>"
-        let ghost n2 = self.nodes@;
-//@before "self.free_node_ids.push(id.as_u64());"
+        let ghost fo = self.frozen_outgoing.nbrs(idx as int);
+        let ghost fi = self.frozen_incoming.nbrs(idx as int);
+        let ghost bo = self.outgoing@[idx as int]@;
+        let ghost bi = self.incoming@[idx as int]@;
+//@before "Ok(node)"
         proof {
-            lemma_read_idx(self.nodes@[id.0 as int]@, self.current_version);
+            assert(outgoing_edges@ == ids_of(fo) + ids_of(bo));
+            assert(incoming_edges@ == ids_of(fi) + ids_of(bi));
+            let all = all_edges__@;
+            assert forall|k: int| 0 <= k < fo.len() implies self.asked_to_delete((#[trigger] fo[k]).1) by { assert(all[k] == fo[k].1); }
+            assert forall|k: int| 0 <= k < bo.len() implies self.asked_to_delete((#[trigger] bo[k]).1) by { assert(all[fo.len() + k] == bo[k].1); }
+            assert forall|k: int| 0 <= k < fi.len() implies self.asked_to_delete((#[trigger] fi[k]).1) by { assert(all[fo.len() + bo.len() + k] == fi[k].1); }
+            assert forall|k: int| 0 <= k < bi.len() implies self.asked_to_delete((#[trigger] bi[k]).1) by { assert(all[fo.len() + bo.len() + fi.len() + k] == bi[k].1); }
         }
 //@replace "in &latest_node.labels {" => "in latest_node.labels.as_vec().iter() {" :: HashSet<Label> iteration through the stand-in (D4)
 //@replace "crate::graph::event::IndexEvent::NodeDeleted" => "IndexEvent::NodeDeleted" :: path only
+//@replace "self.frozen_outgoing.neighbors_collected(idx)<NL>            .iter().map(|&(_, eid)| eid).collect();" => "entry_ids(&self.frozen_outgoing.neighbors_collected(idx));" :: iterator chain map/collect over a tuple pattern: wrapper whose body is the same chain
+//@replace "self.frozen_incoming.neighbors_collected(idx)<NL>            .iter().map(|&(_, eid)| eid).collect();" => "entry_ids(&self.frozen_incoming.neighbors_collected(idx));" :: same
 //@replace "for edge_id in outgoing_edges.iter().chain(incoming_edges.iter()) {" => "let all_edges__ = chained_ids(&outgoing_edges, &incoming_edges); for edge_id in all_edges__.iter() {" :: the Chain adapter is outside Verus: the same sequence, materialised
 //@atstart
         proof { axiom_key_models(); }
 //@end
+}
 
-//@fn GraphStore::set_node_property ret=r
-//@requires
-        old(self).stamped(),
-//@ensures
-        final(self).nodes@.len() == old(self).nodes@.len() && final(self).current_version == old(self).current_version,   //#frame
-        forall|id: int, v: u64| 0 <= id < old(self).nodes@.len() && v < old(self).current_version
-            ==> #[trigger] read(final(self).nodes@[id]@, v) == read(old(self).nodes@[id]@, v),          //#reads_below_current_version_unchanged
-        final(self).stamped(),                                                                        //#stamps_stay_sorted_and_current
-        r is Err ==> final(self).nodes@ == old(self).nodes@,                                          //#refused_changes_no_version
-//@loop 1 iter=it1
-            invariant self.nodes@ == old(self).nodes@, self.current_version == old(self).current_version,
-                self.outgoing@ == old(self).outgoing@ && self.incoming@ == old(self).incoming@, old(self).stamped(),
-//@loop 2 iter=it2
-            invariant self.nodes@ == n1, self.current_version == old(self).current_version,
-//@before "for label in &constrained_labels {" 2
-        let ghost n1 = self.nodes@;
-        proof {
-            let cv = old(self).current_version;
-            if idx < old(self).nodes@.len() {
-                let c0 = old(self).nodes@[idx as int]@;
-                let c1 = self.nodes@[idx as int]@;
-                if c0.len() > 0 {
-                    assert forall|v: u64| v < cv implies read(c1, v) == read(c0, v) by {
-                        if c1.len() == c0.len() + 1 {
-                            assert(c1 =~= c0.push(c1.last()));
-                            lemma_read_ignores_newer_last(c0, c1.last(), v);
-                        } else {
-                            assert(c1 =~= c0.drop_last().push(c1.last()));
-                            assert(c0 =~= c0.drop_last().push(c0.last()));
-                            lemma_read_ignores_newer_last(c0.drop_last(), c1.last(), v);
-                            lemma_read_ignores_newer_last(c0.drop_last(), c0.last(), v);
-                        }
-                    }
-                }
-            }
-        }
-//@replace "self.nodes.get_mut(" => "vec_get_mut(&mut self.nodes, " :: slice::get_mut has no final-value specification in vstd; wrapper body is the original expression
-//@replace "chrono::Utc::now().timestamp_millis()" => "now_millis()" :: wall clock: opaque i64 source
-//@end
-}
-}
-fn main(){}
+} // verus!
+fn main() {}
